@@ -553,6 +553,15 @@ def gen_arrays(rng, tier, codecs=None):
                     ops.append(f"pfor.rt {explicit(body)} t={hx(rng.choice([0x5f, 0x64]))}")
                 else:
                     ops.append(f"{c}.rt {explicit(body)}")
+    # element COUNTS at the boundaries of the tagged varint that stores them in the header (1/2/3/4-byte count field):
+    # a header reader that mis-decodes one form of the count is invisible below 67824 elements
+    for c in codecs:
+        if c not in ("for", "forb", "pfor", "rleh"):
+            continue
+        ns = [241, 2288, 67824, 67825] if tier == "quick" else [240, 241, 2287, 2288, 67823, 67824, 67825, 70000]
+        for n in ns:
+            spec = arr_spec(rng, n, lo=rng.choice([0, 1000, 1 << 33]), rg=rng.choice([0xff, 0xffff, 3]))
+            ops.append(f"pfor.rt {spec} t=5f" if c == "pfor" else f"{c}.rt {spec}")
     # run lengths straddling the tagged-length boundaries, as first, interior and last run
     for c in ("rle", "rleh"):
         if c in codecs:
